@@ -89,11 +89,11 @@ func genC08Big(r *Rng, i int) *Scenario {
 	if strings.HasSuffix(c08Families[fam], "mget") {
 		rr = pick(r, []int{1024, 1100, 2100}) // kvql evaluates IN per row over the whole list: quadratic
 	}
-	s := pick(r, []int{0, 1, 4095, 4096, 65535, 65536, rr - 1, rr, rr - 10})
+	s := pick(r, []int{0, 0, 1, 7, 4095, 4096, 65535, 65536, rr - 1, rr, rr - 10})
 	if s < 0 {
 		s = 0
 	}
-	n := pick(r, []int{1, 10, 4097, 65536, rr, rr - s, 70000})
+	n := pick(r, []int{1, 10, 10, 100, 4097, 65536, rr, rr - s, 70000})
 	if n < 0 {
 		n = 0
 	}
